@@ -183,7 +183,7 @@ JOURNALS = ['delete', 'truncate', 'persist']
 
 def build_initial(dc, path, kind, maxlen, setup, journal='wal'):
     # the journal mode is stored in the directory: later handles (the child's, the judge's) inherit it
-    cache = dc.Cache(path, sqlite_journal_mode=journal, **SETTINGS)
+    cache = dc.Cache(path, **dict(SETTINGS, **common.journal_kw(journal)))
     if kind == 'deque':
         obj = dc.Deque.fromcache(cache, maxlen=maxlen)
     elif kind == 'index':
